@@ -849,8 +849,9 @@ def fam_list(P, n, tier):
     """C19: TEST responses and command lists over descriptor shapes"""
     out = []
     for i in range(n):
-        sc = rand_desc(P, 'list%d' % i, mutex=False, cap=1, buf=(P.choice([40, 64, 128, 256]), P.choice([-1, 32])),
-                       names=['+L%d' % k + 'x' * P.randint(0, 3) for k in range(12)], odd_sizes=0.1)
+        sc = rand_desc(P, 'list%d' % i, mutex=False, cap=(P.choice([1, 2, 3]) if i % 3 == 2 else 1),
+                       buf=((P.choice([24, 28, 32, 40, 48, 64]), -1) if i % 3 == 2 else (P.choice([40, 64, 128, 256]), P.choice([-1, 32]))),
+                       names=['+L%d' % k + 'x' * P.randint(0, 12 if (i % 3 == 2 and P.chance(0.3)) else 3) for k in range(12)], odd_sizes=0.1)
         lister = Cmd('#HELP', run=P.chance(0.5), t=True)
         if not lister.run:
             lister.t = True
@@ -867,6 +868,17 @@ def fam_list(P, n, tier):
                 sc.op('dg %d 1' % g)
         sched(P, sc, style=P.choice(['eager', 'rand']))
         sc.feed('AT#HELP' + ('' if lister.run and P.chance(0.5) else '=?') + P.choice(['\n', '\r\n']))
+        if i % 3 == 2:
+            # events formatted / half-written while the list is being printed (and possibly aborted
+            # with ERROR because a line does not fit): trigger at scattered service points
+            evc = [c for c in sc.cmds() if c is not lister and (c.t or c.vars or c.r)]
+            for j in range(P.randint(3, 10)):
+                sc.service(P.randint(1, 60))
+                if evc:
+                    ev = P.choice(evc)
+                    sc.op('t %d %d' % (ev.ci, P.choice([T_READ, T_TEST])))
+                if P.chance(0.3):
+                    sc.op('B')
         sc.drain(20000)
         for c in sc.cmds()[:6]:
             if c is lister:
@@ -966,7 +978,11 @@ def fam_units(P, n, tier):
         rd = Cmd('+R', r=True)
         ls = Cmd('#L', run=True)
         other = Cmd('+Q', run=True, r=True, w=True, t=True)
-        sc.add_group([rd, ls, other])
+        grp = [rd, ls, other]
+        if i % 3 == 1:
+            # a name too long for a list line: the list is cut short with ERROR while events are in flight
+            grp.insert(P.randint(2, 3), Cmd('+Z' + 'Z' * (sc.asz() - P.randint(0, 4)), run=True))
+        sc.add_group(grp)
         evs = [Cmd('e%d' % j, r=True, t=True) for j in range(P.randint(1, 3))]
         for e in evs:
             sc.add_extra(e)
@@ -1106,6 +1122,45 @@ def fam_search(P, n, tier):
     return out
 
 
+def fam_manycmds(P, n, tier):
+    """C02/C09: tables of several hundred commands sharing a prefix: abbreviations with 255..258 candidates
+    (counter widths), the unique / ambiguous boundary moved by disabling single commands between lines"""
+    out = []
+    for i in range(n):
+        total = P.choice([257, 258, 259, 260, 300])
+        sc = Scn('many%d' % i, cap=1, buf_size=P.choice([160, 200, 256]), ubuf_size=16, fill=0)
+        cmds = []
+        for k in range(total):
+            kind = P.random()
+            cmds.append(Cmd('+C%03d' % k, run=True, r=(kind < 0.3), w=(kind > 0.8)))
+        tail = [Cmd('+D', run=True), Cmd('+CX', run=True)][:P.randint(0, 2)]
+        allc = cmds + tail
+        P.shuffle(tail)
+        cut = P.randint(1, len(allc) - 1)
+        sc.add_group(allc[:cut])
+        sc.add_group(allc[cut:])
+        cand = [c for c in sc.cmds() if c.name.startswith('+C')]
+        ncand = len(cand)
+        # bring the number of enabled candidates of "+C" to 258, then step it down through 257, 256, 255
+        off = []
+        order = list(cand)
+        P.shuffle(order)
+        while ncand - len(off) > 258:
+            c = order.pop()
+            off.append(c)
+            sc.op('dc %d 1' % c.ci)
+        for step in range(4):
+            for line in ('AT+C\n', 'AT+c?\n', 'AT+C0\n', 'AT+C25\n', 'AT+C%03d\n' % P.randint(0, total - 1)):
+                if line == 'AT+C\n' or P.chance(0.4):
+                    sc.feed(line)
+                    sc.drain(60000)
+            if order:
+                c = order.pop()
+                sc.op('dc %d 1' % c.ci)
+        out.append(sc)
+    return out
+
+
 def fam_exh(P, n, tier):
     """bounded-exhaustive: EVERY input string up to a length bound over the syntactic alphabet of the line
     grammar, against one fixed table with prefix-related names, followed by a line feed and a drain
@@ -1205,7 +1260,7 @@ def fam_exharg(P, n, tier):
 FAMILIES = {
     'mixed': fam_mixed, 'names': fam_names, 'num': fam_num, 'buf': fam_buf, 'cap': fam_cap, 'rc': fam_rc,
     'events': fam_events, 'hold': fam_hold, 'mutex': fam_mutex, 'lines': fam_lines, 'rt': fam_rt,
-    'wo': fam_wo, 'list': fam_list, 'bytes': fam_bytes, 'sched': fam_sched, 'units': fam_units, 'lanes': fam_lanes, 'search': fam_search, 'exh': fam_exh, 'mxev': fam_mxev, 'exharg': fam_exharg,
+    'wo': fam_wo, 'list': fam_list, 'bytes': fam_bytes, 'sched': fam_sched, 'units': fam_units, 'lanes': fam_lanes, 'search': fam_search, 'manycmds': fam_manycmds, 'exh': fam_exh, 'mxev': fam_mxev, 'exharg': fam_exharg,
 }
 
 
